@@ -47,6 +47,12 @@ MC_WRITES = {"module": "MC_Writes", "cfg": {"quick": "MC_Writes.cfg", "thorough"
 MC_WRITES_SPLIT = {"module": "MC_Writes", "cfg": {"quick": None, "thorough": "MC_Writes_split.cfg"}, "expect": "violation",
                    "timeout": {"quick": 900, "thorough": 900}, "workers": 8}
 
+# C04: the pipeline of MC_FilterSync on a world with a fork; the peer reorganises at any point of the pipeline
+MC_FILTERFORK = {"module": "MC_FilterFork", "cfg": "MC_FilterFork.cfg", "timeout": {"quick": 900, "thorough": 1800}, "workers": 6}
+# rollback_to_fork_number before fix 10f415f: TLC must refute it
+MC_FILTERFORK_PREFIX = {"module": "MC_FilterFork", "cfg": "MC_FilterFork_prefix.cfg", "expect": "violation",
+                        "timeout": {"quick": 900, "thorough": 1800}, "workers": 6}
+
 # C17: the fork switch interleaved with a BlockFilters batch at write granularity, with the matched-blocks lock
 MC_CONC = {"module": "MC_Conc", "cfg": "MC_Conc.cfg", "timeout": {"quick": 600, "thorough": 600}, "workers": 4}
 # the lock discipline before fix 92f2bdb (tip and prove state updated outside the lock): TLC must refute it
@@ -68,8 +74,8 @@ CHECKS = {
     },
     "C04": {
         "trace_module": "Trace_FilterSync",
-        "mc": [MC_FILTERSYNC],
-        "drivers": [fsync("fork", 40, 300, 4, 10), fsync("forkrand", 15, 100, 1, 4)],
+        "mc": [MC_FILTERSYNC, MC_FILTERFORK, MC_FILTERFORK_PREFIX],
+        "drivers": [fsync("fork", 40, 300, 4, 10), fsync("forkrand", 15, 100, 1, 4), wsync("fork", 8, 60, 1, 3)],
         "assumptions": FS_ASSUMPTIONS,
     },
     "C07": {
